@@ -192,6 +192,36 @@ pub fn short_string_count(max_len: usize) -> u64 {
     }
 }
 
+/// a set of byte strings: every string of length <= `short`, plus every string of length 3..=`alpha` over the
+/// 8-letter boundary alphabet
+#[derive(Clone, Copy, Debug)]
+pub struct Strs {
+    pub short: usize,
+    pub alpha: u32,
+}
+
+impl Strs {
+    pub fn count(&self) -> u64 {
+        short_string_count(self.short) + alphabet_string_count(self.alpha)
+    }
+    pub fn get(&self, i: u64) -> Vec<u8> {
+        let n = short_string_count(self.short);
+        if i < n {
+            short_string(i)
+        } else {
+            alphabet_string(i - n)
+        }
+    }
+    /// quick: <=2 bytes + alphabet <=5; thorough heavy: <=3 bytes + alphabet <=6; thorough light: <=2 bytes + alphabet <=6
+    pub fn for_tier(tier: Tier, heavy: bool) -> Strs {
+        match (tier, heavy) {
+            (Tier::Quick, _) => Strs { short: 2, alpha: 5 },
+            (Tier::Thorough, true) => Strs { short: 3, alpha: 6 },
+            (Tier::Thorough, false) => Strs { short: 2, alpha: 6 },
+        }
+    }
+}
+
 pub const SMALL_ALPHABET: [u8; 8] = [0x00, 0x01, 0x02, 0x03, 0x04, 0x7F, 0x80, 0xFF];
 
 /// all strings of length 3..=6 over the 8-letter alphabet (shorter ones are covered by `short_string`)
